@@ -30,13 +30,17 @@ def known_id(fam):
         return 'C16-intervener-run'
     if TWPRGE_END.search(p) and u.strip() == '':
         return 'C16-whitespace-after-twprge'
+    # a long section / lot LIST (separator + number, repeated) with another Twp/Rge further on in the text
+    if NUM_END.search(p) and re.fullmatch(r'\s*([/.,;:&]|and)?\s*\d{1,3}\s*', u) and TWPRGE_ANY.search(fam['suffix']):
+        return 'C16-section-list-before-twprge'
     # a whitespace run that reduce_whitespace() leaves standing: blanks alternating with line breaks, or blanks other than space / tab (NBSP, em space ...)
     if ALIQUOT_END.search(p) and u.strip() == '' and (('\n' in u and len(u) > 1) or any(c not in ' \t\n\r' for c in u)) and fam['suffix'].strip():
         return 'C16-aliquot-newline-run'
     return None
 
 
-REPRESENTATIVES = ['pump|T154N-R97W Sec 14|. |', 'pump|T154N-R97W| |', 'lines|T154N-R97W|\n', 'pump|T154N-R97W Sec 14: NE/4| \n|X']
+REPRESENTATIVES = ['pump|T154N-R97W Sec 14|. |', 'pump|T154N-R97W| |', 'lines|T154N-R97W|\n', 'pump|T154N-R97W Sec 14: NE/4| \n|X',
+                   'pump|T154N-R97W Sec 14|, 1| T155N-R97W Sec 1: ALL']
 
 
 def run(tier, mode):
